@@ -278,6 +278,22 @@ class Scene:
     def _SetPublic(self, h, **_):
         self.hole(h).public = False
 
+    def _ReopenRemoveGroup(self, h, pg, via, **_):
+        from geoh5py import Workspace
+        self.ws.close()
+        self.ws = Workspace(self.path)
+        self.group = self.ws.get_entity(self.group_uid)[0]
+        by_uid = {c.uid: c for c in self.group.children}
+        self.holes = {x: by_uid[uid] for x, uid in self.hole_uid.items() if uid in by_uid}
+        hole = self.holes[h]  # none of its data has been read in this session
+        found = [g for g in (hole.property_groups or []) if g.name == pg]
+        if not found:
+            raise LookupError(f"harness: hole {h} has no property group {pg} after re-open")
+        if via == "ws":
+            self.ws.remove_entity(found[0])
+        else:
+            hole.remove_children([found[0]])
+
     def _Protect(self, h, name="", **_):
         (self.hole(h) if name == "" else self._first_data(h, name)).allow_delete = False
 
